@@ -741,7 +741,9 @@ def shrink(case):
     for fi, f in enumerate(case["files"]):
         for i, ln in enumerate(f["lines"]):
             s = ln["s"]
-            keep = s is not None and (any(p[0] == "d" for p in s["pre"]) or s["act"].get("d") in ("print", "sealed", "extent", "union") or s["act"]["k"] in ("marker", "syntax"))
+            is_union = any(x["s"] is not None and x["s"]["act"].get("d") == "union" for x in f["lines"])
+            keep = s is not None and (any(p[0] == "d" or p == "o" for p in s["pre"]) or s["act"].get("d") in ("print", "sealed", "extent", "union", "deprecated")
+                                      or s["act"]["k"] in ("marker", "syntax") or (is_union and s["act"]["k"] == "field"))
             if f["fault_line"] is not None:
                 n = 1
                 for ln2 in f["lines"][:i]:
